@@ -61,6 +61,9 @@ type TaskProg struct {
 	// Spec: when set, the task does not read a document: its cue list is built in code from this description
 	// (values no reader of this library produces: a language nobody registered, one colour field only, ...).
 	Spec *corpus.ListSpec `json:"spec,omitempty"`
+	// PostOps: transformations applied to the task's own list after its writes (a writer must be done with the list
+	// when it returns, successfully or not), followed by one more write with the first writer.
+	PostOps []api.Op `json:"post_ops,omitempty"`
 	// Many: when set, the list is corpus.ManyCues(Many) - large enough for the size thresholds of writers and
 	// transformations (worker pools, batches) to be crossed while other tasks run
 	Many int `json:"many,omitempty"`
@@ -202,7 +205,7 @@ func execTaskAt(p TaskProg, tag string) (rec []string) {
 		}
 		w := simio.NewWriter(wp)
 		w.Hook = hook
-		before := canon.Hash(s)
+		before := canon.HashWithCapacity(s)
 		err, pn := api.Write(wf, s, w.Wrap())
 		switch {
 		case pn != "":
@@ -212,7 +215,7 @@ func execTaskAt(p TaskProg, tag string) (rec []string) {
 		default:
 			rec = append(rec, "write:"+wf+":ok:"+canon.HashBytes(w.Buf))
 		}
-		if canon.Hash(s) != before {
+		if canon.HashWithCapacity(s) != before {
 			rec = append(rec, "write:"+wf+":input-modified")
 		}
 	}
@@ -221,6 +224,13 @@ func execTaskAt(p TaskProg, tag string) (rec []string) {
 			break
 		}
 		path := filepath.Join(c20Dir, tag+"-"+strconv.Itoa(k)+"."+ext)
+		if strings.HasPrefix(ext, "sub/") {
+			// into a sub-directory that does not exist (and that the harness removes after every phase, should a
+			// call create it): whatever the library does about it, it must do the same the next time
+			ext = ext[4:]
+			path = filepath.Join(c20Dir, "sub", tag+"-"+strconv.Itoa(k)+"."+ext)
+			ext = "sub-" + ext
+		}
 		err, pn := fileWrite(s, path)
 		switch {
 		case pn != "":
@@ -244,6 +254,26 @@ func execTaskAt(p TaskProg, tag string) (rec []string) {
 			rec = append(rec, "reopen:"+ext+":error")
 		default:
 			rec = append(rec, "reopen:"+ext+":ok:"+canon.Hash(back))
+		}
+	}
+	for _, op := range p.PostOps {
+		if pn := api.Apply(op, s, nil); pn != "" {
+			rec = append(rec, "postop:"+op.Name+":panic")
+			continue
+		}
+		rec = append(rec, "postop:"+op.Name+":"+canon.Hash(s))
+	}
+	if len(p.PostOps) > 0 && len(p.Writers) > 0 {
+		w := simio.NewWriter(simio.WritePlan{})
+		w.Hook = hook
+		err, pn := api.Write(p.Writers[0], s, w.Wrap())
+		switch {
+		case pn != "":
+			rec = append(rec, "rewrite:"+p.Writers[0]+":panic")
+		case err != nil:
+			rec = append(rec, "rewrite:"+p.Writers[0]+":error")
+		default:
+			rec = append(rec, "rewrite:"+p.Writers[0]+":ok:"+canon.HashBytes(w.Buf))
 		}
 	}
 	return rec
@@ -446,6 +476,9 @@ func runScenario(sc C20Scenario, siteFunc map[int]string) ScenarioResult {
 		if pr.Err != "" {
 			break // goroutines of an abandoned phase may still run: nothing after it is meaningful
 		}
+		if c20Dir != "" {
+			os.RemoveAll(filepath.Join(c20Dir, "sub"))
+		}
 	}
 	return out
 }
@@ -478,6 +511,9 @@ func runScenarioReal(sc C20Scenario) ScenarioResult {
 		wg.Wait()
 		pr.TraceHash = "real-threads"
 		out.Phases = append(out.Phases, pr)
+		if c20Dir != "" {
+			os.RemoveAll(filepath.Join(c20Dir, "sub"))
+		}
 	}
 	return out
 }
@@ -552,6 +588,7 @@ func c20Child(cfg Config, kind string, raw []byte) int {
 					pr.Records[i] = execTaskAt(sc.Tasks[ti], fmt.Sprintf("p%d-t%d", pi, i))
 				}
 				r.Phases = append(r.Phases, pr)
+				os.RemoveAll(filepath.Join(c20Dir, "sub"))
 			}
 			os.RemoveAll(c20Dir)
 			c20Dir = ""
@@ -801,6 +838,16 @@ func buildDocPool(cfg Config) (*docPool, error) {
 <tt xml:lang="` + tag + `" xmlns="http://www.w3.org/ns/ttml"><head><metadata><ttm:title xmlns:ttm="http://www.w3.org/ns/ttml#metadata">lang</ttm:title></metadata></head>
 <body><div><p begin="00:00:01.000" end="00:00:02.000">Ol&#225;</p><p begin="00:00:03.000" end="00:00:04.000">Tsch&#252;ss</p></div></body></tt>`)})
 	}
+	// the same timestamp text in documents of different formats, each with the other format's separator (comma in
+	// WebVTT / TTML, dot in SRT): what one reader accepts or rejects must not depend on what another has seen
+	p.docs = append(p.docs,
+		corpus.Doc{Name: "srt-comma-times", Format: "srt", Data: []byte("1\n07:11:13,517 --> 07:11:15,919\ncomma\n\n2\n07:11:16,000 --> 07:11:17,250\ntimes\n")},
+		corpus.Doc{Name: "vtt-comma-times", Format: "vtt", Data: []byte("WEBVTT\n\n07:11:13,517 --> 07:11:15,919\ncomma\n\n07:11:16,000 --> 07:11:17,250\ntimes\n")},
+		corpus.Doc{Name: "vtt-dot-times", Format: "vtt", Data: []byte("WEBVTT\n\n07:11:13.517 --> 07:11:15.919\ndot\n\n07:11:16.000 --> 07:11:17.250\ntimes\n")},
+		corpus.Doc{Name: "srt-dot-times", Format: "srt", Data: []byte("1\n07:11:13.517 --> 07:11:15.919\ndot\n\n2\n07:11:16.000 --> 07:11:17.250\ntimes\n")},
+		corpus.Doc{Name: "ttml-comma-times", Format: "ttml", Data: []byte(`<tt xmlns="http://www.w3.org/ns/ttml"><body><div><p begin="07:11:13,517" end="07:11:15,919">comma</p></div></body></tt>`)},
+		corpus.Doc{Name: "ttml-dot-times", Format: "ttml", Data: []byte(`<tt xmlns="http://www.w3.org/ns/ttml"><body><div><p begin="07:11:13.517" end="07:11:15.919">dot</p></div></body></tt>`)},
+		corpus.Doc{Name: "ssa-same-times", Format: "ssa", Data: []byte("[Script Info]\nTitle: t\n\n[Events]\nFormat: Marked, Start, End, Style, Name, MarginL, MarginR, MarginV, Effect, Text\nDialogue: Marked=0,7:11:13.51,7:11:15.91,Default,,0,0,0,,ssa\n")})
 	// SSA documents that re-declare their columns half way through [Events] (first Format line as in nearly every file)
 	p.docs = append(p.docs, corpus.SSATwoFormats(false), corpus.SSATwoFormats(true))
 	// UTF-16 documents (rejected today; the input that support for a second encoding would start to accept), small and
@@ -892,12 +939,18 @@ func genTask(r *prng.R, pool *docPool, idx int, theme string) TaskProg {
 		t.Name = "t" + strconv.Itoa(idx) + ":many-" + strconv.Itoa(t.Many)
 	}
 	t.Ops = genOps(r)
-	if t.Many > 0 { // no Fragment / ForceDuration on thousands of cues (quadratic), at most two ops
+	if t.Many > 0 { // Fragment / ForceDuration are quadratic: not on thousands of cues; at most two ops
 		var ops []api.Op
 		for _, op := range t.Ops {
-			if op.Name != "fragment" && op.Name != "forceduration" && len(ops) < 2 {
+			if op.Name == "fragment" || op.Name == "forceduration" {
+				continue
+			}
+			if len(ops) < 2 {
 				ops = append(ops, op)
 			}
+		}
+		if t.Many == 300 && r.Bool(0.6) { // Fragment leaves ~900 cues that share their lines: then something that writes into them
+			ops = []api.Op{{Name: "fragment", D: 700 * int64(time.Millisecond)}, {Name: r.Pick("removestyling", "add", "optimize", "unfragment")}}
 		}
 		t.Ops = ops
 	}
@@ -949,7 +1002,14 @@ func genTask(r *prng.R, pool *docPool, idx int, theme string) TaskProg {
 	}
 	if r.Bool(0.3) || theme == "files" {
 		for i := r.Range(1, 2); i > 0; i-- {
-			t.FileWrites = append(t.FileWrites, r.Pick("srt", "vtt", "ssa", "ass", "stl", "ttml"))
+			t.FileWrites = append(t.FileWrites, r.Pick("", "", "", "sub/")+r.Pick("srt", "vtt", "ssa", "ass", "stl", "ttml"))
+		}
+	}
+	if len(t.Writers) > 0 && r.Bool(0.25) { // the list is used again after it was written
+		for _, op := range genOps(r) {
+			if op.Name != "fragment" && op.Name != "forceduration" && op.Name != "merge" && len(t.PostOps) < 2 {
+				t.PostOps = append(t.PostOps, op)
+			}
 		}
 	}
 	return t
@@ -977,7 +1037,7 @@ func genScenario(root *prng.R, pool *docPool, j int, lim c20Limits) C20Scenario 
 			}
 		}
 		if theme == "files" { // every task uses the file helpers with the same extension in the same directory
-			t.FileWrites = []string{fileExt, fileExt}
+			t.FileWrites = []string{fileExt, r.Pick("", "sub/") + fileExt}
 		}
 		if theme == "samefile" && i > 0 { // every task opens the same file (same options) and then goes its own way
 			t.Doc, t.Reader, t.OpenExt, t.Plan = sc.Tasks[0].Doc, sc.Tasks[0].Reader, sc.Tasks[0].OpenExt, sc.Tasks[0].Plan
